@@ -9,6 +9,7 @@ import (
 	"strings"
 	"time"
 
+	"github.com/AdguardTeam/AdGuardDNS/internal/agdservice"
 	"github.com/AdguardTeam/AdGuardDNS/internal/cmd"
 	"github.com/AdguardTeam/AdGuardDNS/internal/dnsserver"
 	"github.com/AdguardTeam/AdGuardDNS/internal/dnsserver/forward"
@@ -63,6 +64,85 @@ type wireConf struct {
 	interval, timeout  durSpec
 	backoff            durSpec
 	tmpl               string
+	// tmplBad: by the generator's own count of octets the probe name made from
+	// tmpl does not fit the wire format (a label of 0 or more than 63 octets, a
+	// name of more than 255) for the longest random part (16 hex digits).
+	tmplBad bool
+}
+
+// genTmpl builds a health-check domain template label by label out of literal
+// pieces and ${RANDOM} placeholders, aiming at the limits of the wire format:
+// labels of 62 / 63 / 64 octets once the placeholder has its longest value,
+// names of 253 … 257 octets, an empty label.  bad is the generator's own count.
+func genTmpl(rng *rand.Rand) (tmpl string, bad bool) {
+	const alphabet = "abcdefghijklmnopqrstuvwxyz0123456789-"
+	lit := func(n int) string {
+		b := make([]byte, n)
+		for i := range b {
+			b[i] = alphabet[rng.IntN(len(alphabet))]
+		}
+
+		return string(b)
+	}
+	// label returns a label that is n octets long after expansion, with k placeholders.
+	label := func(n, k int) string {
+		for 16*k > n {
+			k--
+		}
+		parts := []string{}
+		rest := n - 16*k
+		for i := 0; i < k; i++ {
+			cut := 0
+			if rest > 0 {
+				cut = rng.IntN(rest + 1)
+			}
+			parts = append(parts, lit(cut), "${RANDOM}")
+			rest -= cut
+		}
+
+		return strings.Join(parts, "") + lit(rest)
+	}
+	var labels []string
+	var lens []int
+	add := func(n, k int) {
+		labels = append(labels, label(n, k))
+		lens = append(lens, n)
+	}
+	switch rng.IntN(8) {
+	case 0: // one label at the limit
+		add([]int{62, 63, 64, 65}[rng.IntN(4)], rng.IntN(5))
+		add(3, 0)
+	case 1: // placeholders only
+		add(16*(1+rng.IntN(4)), 4)
+		add(7, 0)
+		add(3, 0)
+	case 2: // an empty label in the middle
+		add(1+rng.IntN(20), rng.IntN(2))
+		add(0, 0)
+		add(3, 0)
+	case 3: // a name at the limit: wire length = sum(len+1) + 1
+		want := 253 + rng.IntN(5)
+		add(63, rng.IntN(4))
+		add(63, rng.IntN(4))
+		add(63, rng.IntN(4))
+		add(want-1-3*64-1, rng.IntN(3))
+	default:
+		for i := 1 + rng.IntN(4); i > 0; i-- {
+			add(1+rng.IntN(40), rng.IntN(3))
+		}
+	}
+	wire := 1
+	for _, n := range lens {
+		wire += n + 1
+		bad = bad || n == 0 || n > 63
+	}
+	bad = bad || wire > 255
+	tmpl = strings.Join(labels, ".")
+	if rng.IntN(2) == 0 {
+		tmpl += "."
+	}
+
+	return tmpl, bad
 }
 
 func (c *wireConf) yaml() string {
@@ -105,7 +185,7 @@ func (c *wireConf) valid() bool {
 		return true
 	}
 
-	return c.tmpl != "" && c.interval.positive() && c.timeout.positive() && c.backoff.positive()
+	return c.tmpl != "" && !c.tmplBad && c.interval.positive() && c.timeout.positive() && c.backoff.positive()
 }
 
 func genWireConf(rng *rand.Rand) *wireConf {
@@ -147,6 +227,9 @@ func genWireConf(rng *rand.Rand) *wireConf {
 	}
 	c := &wireConf{enabled: rng.IntN(4) != 0, interval: newDur(), timeout: newDur(), backoff: newDur(),
 		tmpl: []string{"${RANDOM}.neverssl.com", "probe.example", "${RANDOM}", "a.${RANDOM}.b."}[rng.IntN(4)]}
+	if rng.IntN(3) == 0 {
+		c.tmpl, c.tmplBad = genTmpl(rng)
+	}
 	for i := 1 + rng.IntN(3); i > 0; i-- {
 		c.servers = append(c.servers, newSrv())
 	}
@@ -181,8 +264,65 @@ type nopErrColl struct{}
 
 func (nopErrColl) Collect(_ context.Context, _ error) {}
 
-func wiringCampaign(o *hlib.Opts, r *hlib.Result) {
+// tmplSpec writes a template made of plain labels and placeholders in the
+// vocabulary of driver op tv: labels separated by '.', pieces by ',', a piece
+// is R or the length of a literal.
+func tmplSpec(tmpl string) string {
+	var labels []string
+	for _, l := range strings.Split(strings.TrimSuffix(tmpl, "."), ".") {
+		var pieces []string
+		for i, lit := range strings.Split(l, "${RANDOM}") {
+			if i > 0 {
+				pieces = append(pieces, "R")
+			}
+			if lit != "" {
+				pieces = append(pieces, fmt.Sprint(len(lit)))
+			}
+		}
+		labels = append(labels, strings.Join(pieces, ","))
+	}
+
+	return strings.Join(labels, ".")
+}
+
+// wiringTemplates: the start-up verdict on generated templates (everything else
+// in the section well formed) against the model's tmplAccepted.
+func wiringTemplates(o *hlib.Opts, r *hlib.Result, m *hlib.Model, rng *rand.Rand) {
+	n := 300
+	if o.Thorough() {
+		n = 3000
+	}
+	var lines, obs, texts []string
+	for i := 0; i < n; i++ {
+		c := &wireConf{
+			servers:   []wireSrv{{host: "127.0.0.1", port: 5300, timeout: durSpec{2, "s"}}},
+			fallbacks: []wireSrv{{host: "127.0.0.1", port: 5301, timeout: durSpec{1, "s"}}},
+			enabled:   true, interval: durSpec{2, "s"}, timeout: durSpec{1, "s"}, backoff: durSpec{30, "s"},
+		}
+		c.tmpl, c.tmplBad = genTmpl(rng)
+		v, err := cmd.VerifC17ParseUpstream([]byte(c.yaml()))
+		if err != nil {
+			continue
+		}
+		lines = append(lines, "tv "+tmplSpec(c.tmpl))
+		obs = append(obs, b2s(v.VerifC17Validate() == nil))
+		texts = append(texts, c.tmpl)
+	}
+	answers := m.Batch(lines)
+	r.Evaluations += len(lines)
+	for i := range lines {
+		if !strings.HasPrefix(answers[i], obs[i]+" ") {
+			r.Disagree("wiring-template", fmt.Sprintf("domain_template %q (%s): start-up check accepted=%s, model %q", texts[i], lines[i], obs[i], answers[i]),
+				map[string]any{"campaign": "wiring", "ops": []string{lines[i]}, "template": texts[i]})
+
+			break
+		}
+	}
+}
+
+func wiringCampaign(o *hlib.Opts, r *hlib.Result, m *hlib.Model) {
 	rng := o.Rand("wiring")
+	wiringTemplates(o, r, m, o.Rand("wiring-templates"))
 	n := 400
 	if o.Thorough() {
 		n = 4000
@@ -196,7 +336,7 @@ func wiringCampaign(o *hlib.Opts, r *hlib.Result) {
 		lives = 4
 	}
 	for i := 0; i < lives; i++ {
-		for _, layout := range []string{"starve", "disabled"} {
+		for _, layout := range []string{"starve", "disabled", "slow", "tmpl"} {
 			// A finding of a live case must reproduce: the servers answer within
 			// microseconds, but the machine is shared.
 			v := wiringLive(rng, layout, i)
@@ -281,6 +421,28 @@ func wiringConvert(r *hlib.Result, c *wireConf) {
 	if hc.HealthcheckInitDuration != wantInit {
 		diffs = append(diffs, fmt.Sprintf("enabled=%v timeout %s: initial health check duration %s", c.enabled, c.timeout.dur(), hc.HealthcheckInitDuration))
 	}
+	// The health-check worker as builder.initHealthCheck makes it (never
+	// started here): every round must get a context that ends healthcheck.timeout
+	// after it was made; without the health check there is no worker at all.
+	svc := v.VerifC17Healthcheck(discard, nil, nopErrColl{})
+	w, isWorker := svc.(*agdservice.RefreshWorker)
+	switch {
+	case isWorker != c.enabled:
+		diffs = append(diffs, fmt.Sprintf("enabled=%v but the health-check service is a %T", c.enabled, svc))
+	case isWorker:
+		before := time.Now()
+		ctx, cancel := agdservice.VerifC17WorkerContext(w)
+		after := time.Now()
+		dl, has := ctx.Deadline()
+		cancel()
+		if !has || dl.Before(before.Add(c.timeout.dur())) || dl.After(after.Add(c.timeout.dur())) {
+			diffs = append(diffs, fmt.Sprintf("healthcheck.timeout %s (interval %s, backoff %s): the context of a worker round has deadline=%v, %s after it was made",
+				c.timeout.dur(), c.interval.dur(), c.backoff.dur(), has, dl.Sub(before).Round(time.Millisecond)))
+		}
+		sctx, scancel := context.WithTimeout(context.Background(), time.Second)
+		_ = svc.Shutdown(sctx)
+		scancel()
+	}
 	if len(diffs) > 0 {
 		r.Violate("wiring-option-lost-or-misrouted", strings.Join(diffs, "; "), map[string]any{"yaml": text})
 	}
@@ -316,6 +478,22 @@ func wiringLive(rng *rand.Rand, layout string, variant int) (f *finding) {
 		tmpl: "${RANDOM}." + probeDomain,
 	}
 	switch layout {
+	case "slow":
+		// Everything answers; the interval is far longer than the run, the
+		// other durations are short: no round may start after NewHandler's own.
+		m0.set("ok", "ok", 1, 1)
+		c.interval, c.timeout, c.backoff = durSpec{1, "h"}, durSpec{40 + 10*(variant%3), "ms"}, durSpec{30, "ms"}
+	case "tmpl":
+		// Everything answers; the template makes a first label of 64 octets
+		// (four times 16 hex digits) in 15 of 16 rounds.  Either the start-up
+		// refuses it, or probes must still reach the upstreams.
+		m0.set("ok", "ok", 1, 1)
+		c.tmpl = []string{"${RANDOM}${RANDOM}${RANDOM}${RANDOM}.example.com", "${RANDOM}.example..com",
+			strings.Repeat("a", 48) + "${RANDOM}.example.com", strings.Repeat("a", 47) + "${RANDOM}.example.com"}[variant%4]
+		c.tmplBad = variant%4 != 3
+		for _, s := range srvs {
+			s.isProbe = func(dns.Question) bool { return true }
+		}
 	case "starve":
 		// Main 0 is there but never answers; as in config.dist.yaml the server
 		// timeouts (2 s) are longer than the health-check timeout.
@@ -327,6 +505,9 @@ func wiringLive(rng *rand.Rand, layout string, variant int) (f *finding) {
 	v, err := cmd.VerifC17ParseUpstream([]byte(c.yaml()))
 	if err == nil {
 		err = v.VerifC17Validate()
+	}
+	if err != nil && c.tmplBad {
+		return nil
 	}
 	if err != nil {
 		violate("wiring-valid-upstream-config-rejected", "%v\n%s", err, c.yaml())
@@ -421,6 +602,40 @@ func wiringLive(rng *rand.Rand, layout string, variant int) (f *finding) {
 		}
 		if f == nil && (!seen[1] || !seen[2] || seen[101] || seen[-1]) {
 			violate("active-upstream-never-chosen", "both mains are back in rotation, 60 queries were answered by %v (tokens: main0=1, main1=2, fallback=101)", seen)
+		}
+	case "tmpl":
+		// The configuration was accepted: with two answering mains the initial
+		// round and a second one must leave both in rotation.
+		for round := 0; round < 2 && f == nil; round++ {
+			if round > 0 {
+				_ = h.Refresh(context.Background())
+			}
+			if !inRotation(0) || !inRotation(1) {
+				act, _, _ := forward.VerifC17State(h)
+				violate("main-dropped-unpackable-probe", "accepted configuration with domain_template %q: both mains answer every request they get (they got %d and %d) "+
+					"but after round %d the active list is %v: no probe can be made from the template, every round counts as failed and all traffic stays on the fallbacks",
+					c.tmpl, probesSeen(m0), probesSeen(m1), round, act)
+			}
+		}
+	case "slow":
+		n0 := probesSeen(m0) + probesSeen(m1)
+		if n0 != 2 {
+			violate("no-probe-in-initial-check", "NewHandler built from the configuration with the health check enabled sent %d probes to 2 answering mains", n0)
+		}
+		if serr := svc.Start(context.Background()); serr != nil {
+			violate("wiring-healthcheck-worker-not-started", "%v", serr)
+
+			return f
+		}
+		defer func() {
+			ctx, cancel := context.WithTimeout(context.Background(), 2*time.Second)
+			_ = svc.Shutdown(ctx)
+			cancel()
+		}()
+		time.Sleep(500 * time.Millisecond)
+		if n := probesSeen(m0) + probesSeen(m1); n != n0 {
+			violate("wiring-healthcheck-interval-ignored", "healthcheck.interval is 1h (timeout %s, backoff %s), but %d more probes arrived within 500 ms of the worker's start",
+				c.timeout.dur(), c.backoff.dur(), n-n0)
 		}
 	case "disabled":
 		if n := probesSeen(m0) + probesSeen(m1); n > 0 {
